@@ -1844,11 +1844,11 @@ class SupplyChainNode(object):
 				else:
 					if attr_name in the_dict:
 						value = the_dict[attr_name]
-						if is_dict(the_dict[attr_name]) and 'dict_type' in the_dict[attr_name]:
-							if the_dict[attr_name]['dict_type'] == 'product_keyed_attribute':
-								# Keys (products) may have been saved as strings -- replace with ints.
-								value = replace_dict_numeric_string_keys(value)
-							del the_dict[attr_name]['dict_type']
+						if is_dict(the_dict[attr_name]):
+							# A dict-valued attribute is keyed by product index. Keys (products) may have been
+							# saved as strings -- replace with ints (and drop the dict_type marker, if any).
+							value = replace_dict_numeric_string_keys(
+								{k: v for k, v in the_dict[attr_name].items() if k != 'dict_type'})
 					else:
 						value = cls._DEFAULT_VALUES[attr_name]
 				setattr(node, attr_name, value)
